@@ -253,6 +253,11 @@ class RunResult:
     pass
 
 
+# virtual seconds a full run may take before it is declared stuck; the slowest legitimate scenarios (every
+# path failing ten times with 5 s pauses, nthreads 1, 15 release rounds) stay far below
+VTIME_CAP = 3e5
+
+
 def run_tool(scn: Scenario, base: Path, faults=None, on_event=None, trace=False, gate=None, upstream_files=None,
              hashseed=None, prepare=None, on_request=None):
     """Runs APTMirror.run() in this process.  faults: {url: {path: {"first": [Resp...], "rest": Resp}}}.
@@ -320,10 +325,10 @@ def run_tool(scn: Scenario, base: Path, faults=None, on_event=None, trace=False,
         try:
             if trace or on_event:
                 with tracer.tracing(base, on_event=on_event):
-                    res.code = sim.run_virtual(go())
+                    res.code = sim.run_virtual(go(), timeout_vs=VTIME_CAP)
                 res.events = list(tracer.events)
             else:
-                res.code = sim.run_virtual(go())
+                res.code = sim.run_virtual(go(), timeout_vs=VTIME_CAP)
                 res.events = []
         except sim.RequestBudgetExceeded as e:
             res.code = 1
@@ -332,6 +337,11 @@ def run_tool(scn: Scenario, base: Path, faults=None, on_event=None, trace=False,
             res.events = list(tracer.events)
         except SystemExit as e:
             res.code = e.code if isinstance(e.code, int) else 1
+            res.events = list(tracer.events)
+        except sim.VirtualTimeExceeded as e:
+            res.code = 1
+            res.exc = str(e)
+            res.nonterminating = "no progress"
             res.events = list(tracer.events)
         except Exception as e:  # the tool crashed: process would exit non-zero with a traceback
             res.code = 1
